@@ -297,3 +297,32 @@ pub proof fn ax_gcd_pow_mod(b: int, e: int, n: int)
     requires n > 0, igcd(b, n) == 1,
     ensures igcd(pow_mod(b, e, n), n) == 1,
 { admit(); }
+
+// ---- negation ---------------------------------------------------------------------------------------
+impl vstd::std_specs::ops::NegSpecImpl for Integer {
+    open spec fn obeys_neg_spec() -> bool { false }
+    open spec fn neg_req(self) -> bool { true }
+    uninterp spec fn neg_spec(self) -> Integer;
+}
+impl core::ops::Neg for Integer {
+    type Output = Integer;
+    #[verifier::external_body]
+    fn neg(self) -> (r: Integer)
+        ensures r@ == -self@,
+    { unimplemented!() }
+}
+
+// ---- rug::ops::DivRounding::div_floor on u32 -----------------------------------------------------------
+pub mod rug {
+    pub mod ops {
+        use vstd::prelude::*;
+        pub struct DivRounding;
+        impl DivRounding {
+            #[verifier::external_body]
+            pub fn div_floor(a: u32, b: u32) -> (r: u32)
+                requires b != 0,
+                ensures r == a / b,
+            { unimplemented!() }
+        }
+    }
+}
